@@ -218,7 +218,11 @@ func (m *Machine) RunPath(h *ssa.Function, prefix []int64, wantModel bool) (res 
 	m.harness = h.Name()
 	res = &PathResult{End: "ok"}
 	defer func() {
-		if r := recover(); r != nil {
+		r := recover()
+		if m.thr != nil {
+			m.thr.killAll()
+		}
+		if r != nil {
 			switch r := r.(type) {
 			case pathAbort:
 				res.End = r.kind.String()
@@ -267,9 +271,6 @@ func (m *Machine) RunPath(h *ssa.Function, prefix []int64, wantModel bool) (res 
 		}
 	}()
 	m.callSSA(nil, h, nil, nil)
-	if m.thr != nil {
-		m.thr.finish(m)
-	}
 	return res
 }
 
